@@ -76,6 +76,13 @@ def gen_cases(tier, seed):
             dev["film"]["points"] = 4  # corners only: the boundary sites are numbered by the mesher, differently for each density
         cases.append({"kind": "moved", "device": dev, "options": o, "drive": drive, "monitors": ["pin"], "move": ["translate_inplace", "translation_context", "remesh"][k % 3],
                       "shift_frac": [[0.3, 0.03][(k // 2) % 2] * np.cos(ang), [0.3, 0.03][(k // 2) % 2] * np.sin(ang)], "cost": 12})
+    for k in range(2 if tier == "quick" else 8):
+        # ONE SolverOptions object: first used on a device WITHOUT terminals, then on the device with terminals
+        dev = zoo.gen_device(rng, n_terminals=[2, 3][k % 2], probes=0, size="small")
+        o = S.base_options(rng, adaptive=bool(k % 2), steps=40)
+        o["terminal_psi"] = [0.0, [0.0, 0.6], 0.5, -0.7][k % 4]
+        drive = {"A": S.field_spec(rng, dev, o, "uniform", b=0.2), "currents": S.current_spec(rng, dev, o, ["const", "none"][k % 2], strength=0.15)}
+        cases.append({"kind": "options_reused", "device": dev, "options": o, "drive": drive, "monitors": ["pin"], "cost": 10})
     m = 3 if tier == "quick" else 20
     for k in range(m):
         dev = zoo.gen_device(rng, n_terminals=[2, 3, 4][k % 3], probes=0, size="small")
@@ -177,6 +184,35 @@ def run_case(spec):
         return out
     if spec["kind"] == "moved":
         return _run_moved(spec)
+    if spec["kind"] == "options_reused":
+        import dataclasses
+
+        device, why = zoo.try_build_device(spec["device"])
+        if device is None:
+            return {"violations": [], "counters": {"refused_mesh": 1}, "classes": ["refused"], "nontrivial": False}
+        bare = copy.deepcopy(spec)
+        bare["device"]["terminals"] = []
+        bare["drive"] = {"A": spec["drive"]["A"]}
+        spec_r = sim.resolve_auto_dt(spec, device)
+        opts = sim.build_options(spec_r["options"], output_file=None)
+        before = dataclasses.asdict(opts)
+        r0 = sim.run_sim(dict(bare, options=spec_r["options"]), [], options_obj=opts)
+        if r0.refused:
+            return {"violations": [], "counters": {"refused_mesh": 1}, "classes": ["refused"], "nontrivial": False}
+        r0.cleanup()
+        after = dataclasses.asdict(opts)
+        changed = [k for k in before if k not in ("output_file", "progress_interval", "pause_on_interrupt") and before[k] != after[k]]
+        V0 = []
+        if changed:
+            V0.append({"kind": "solve_changes_callers_options", "mechanism": "solve_changes_callers_options",
+                       "detail": {"fields": changed, "before": {k: repr(before[k]) for k in changed}, "after": {k: repr(after[k]) for k in changed}}})
+        out = S.run_sim_case(spec_r, "C06", device=device, options_obj=opts)
+        out["violations"] = V0 + out.get("violations", [])
+        out.setdefault("counters", {})["options_reuse_checks"] = 1
+        out["classes"] = ["options_reused", "terminal_psi=" + str(spec["options"].get("terminal_psi"))]
+        c = out["counters"]
+        out["nontrivial"] = c.get("update_calls", 0) >= 10
+        return out
     # differential pair
     tms = []
     for variant in ("with_unpinned_terminals", "without_terminals"):
